@@ -18,25 +18,25 @@ import (
 // ---------------------------------------------------------------------------------------------------
 
 var codecCalls = map[string]string{
-	"encoding/binary.PutVarint":                     "varint",
-	"encoding/binary.Varint":                        "varint",
-	"encoding/binary.AppendVarint":                  "varint",
-	"encoding/binary.PutUvarint":                    "uvarint",
-	"encoding/binary.Uvarint":                       "uvarint",
-	"encoding/binary.AppendUvarint":                 "uvarint",
-	"(encoding/binary.littleEndian).PutUint16":      "u16le",
-	"(encoding/binary.littleEndian).Uint16":         "u16le",
-	"(encoding/binary.littleEndian).PutUint32":      "u32le",
-	"(encoding/binary.littleEndian).Uint32":         "u32le",
-	"(encoding/binary.littleEndian).AppendUint32":   "u32le",
-	"(encoding/binary.littleEndian).PutUint64":      "u64le",
-	"(encoding/binary.littleEndian).Uint64":         "u64le",
-	"(encoding/binary.bigEndian).PutUint16":         "u16be",
-	"(encoding/binary.bigEndian).Uint16":            "u16be",
-	"(encoding/binary.bigEndian).PutUint32":         "u32be",
-	"(encoding/binary.bigEndian).Uint32":            "u32be",
-	"(encoding/binary.bigEndian).PutUint64":         "u64be",
-	"(encoding/binary.bigEndian).Uint64":            "u64be",
+	"encoding/binary.PutVarint":                   "varint",
+	"encoding/binary.Varint":                      "varint",
+	"encoding/binary.AppendVarint":                "varint",
+	"encoding/binary.PutUvarint":                  "uvarint",
+	"encoding/binary.Uvarint":                     "uvarint",
+	"encoding/binary.AppendUvarint":               "uvarint",
+	"(encoding/binary.littleEndian).PutUint16":    "u16le",
+	"(encoding/binary.littleEndian).Uint16":       "u16le",
+	"(encoding/binary.littleEndian).PutUint32":    "u32le",
+	"(encoding/binary.littleEndian).Uint32":       "u32le",
+	"(encoding/binary.littleEndian).AppendUint32": "u32le",
+	"(encoding/binary.littleEndian).PutUint64":    "u64le",
+	"(encoding/binary.littleEndian).Uint64":       "u64le",
+	"(encoding/binary.bigEndian).PutUint16":       "u16be",
+	"(encoding/binary.bigEndian).Uint16":          "u16be",
+	"(encoding/binary.bigEndian).PutUint32":       "u32be",
+	"(encoding/binary.bigEndian).Uint32":          "u32be",
+	"(encoding/binary.bigEndian).PutUint64":       "u64be",
+	"(encoding/binary.bigEndian).Uint64":          "u64be",
 }
 
 type codecSeq struct {
@@ -947,4 +947,126 @@ func condUsesType(v ssa.Value, dec *ssa.Function, depth int, seen map[ssa.Value]
 		return condUsesType(t.X, dec, depth+1, seen)
 	}
 	return false
+}
+
+// wd1WideOffsets: byte offsets are 64-bit. A product with the block size computed in a 32-bit (or narrower) type
+// and widened afterwards wraps at 4 GiB: records written beyond it are read from their offset modulo 2^32.
+func wd1WideOffsets(p *core.Prog, rep *core.Report, blockSize int64) {
+	rep.Rule("WD1", "offset arithmetic is 64-bit: in package datafile no product with a factor >= the block size is computed in an integer type narrower than 64 bits and then widened (directly or through + / - / phi) to a 64-bit offset; the widening must come before the multiplication (DataFileSize is an int64, block ids reach 2^17 at 4 GiB)")
+	narrow := func(t types.Type) bool {
+		b, ok := t.Underlying().(*types.Basic)
+		if !ok {
+			return false
+		}
+		switch b.Kind() {
+		case types.Int8, types.Int16, types.Int32, types.Uint8, types.Uint16, types.Uint32:
+			return true
+		}
+		return false
+	}
+	wide := func(t types.Type) bool {
+		b, ok := t.Underlying().(*types.Basic)
+		if !ok {
+			return false
+		}
+		switch b.Kind() {
+		case types.Int64, types.Uint64, types.Int, types.Uint, types.Uintptr:
+			return true
+		}
+		return false
+	}
+	var bad []string
+	nMul, nConv := 0, 0
+	for _, fn := range p.LibFuncs() {
+		if fn.Package() == nil || fn.Package().Pkg.Path() != core.ModPath+"/datafile" {
+			continue
+		}
+		for _, b := range fn.Blocks {
+			for _, in := range b.Instrs {
+				bo, ok := in.(*ssa.BinOp)
+				if !ok || (bo.Op != token.MUL && bo.Op != token.SHL) {
+					continue
+				}
+				big := false
+				nonConst := false
+				for _, side := range []ssa.Value{bo.X, bo.Y} {
+					if k, ok := constInt(side); ok {
+						if bo.Op == token.MUL && k >= blockSize {
+							big = true
+						}
+						if bo.Op == token.SHL && side == bo.Y && (int64(1)<<uint(k&63)) >= blockSize {
+							big = true
+						}
+					} else {
+						nonConst = true
+					}
+				}
+				if !big || !nonConst {
+					continue
+				}
+				nMul++
+				if !narrow(bo.Type()) {
+					continue
+				}
+				// does the narrow product reach a widening conversion through value-preserving steps?
+				seen := map[ssa.Value]bool{}
+				var walk func(v ssa.Value) ssa.Instruction
+				walk = func(v ssa.Value) ssa.Instruction {
+					if seen[v] {
+						return nil
+					}
+					seen[v] = true
+					for _, r := range *v.Referrers() {
+						switch t := r.(type) {
+						case *ssa.Convert:
+							if wide(t.Type()) {
+								return t
+							}
+							if narrow(t.Type()) {
+								if w := walk(t); w != nil {
+									return w
+								}
+							}
+						case *ssa.ChangeType:
+							if w := walk(t); w != nil {
+								return w
+							}
+						case *ssa.Phi:
+							if w := walk(t); w != nil {
+								return w
+							}
+						case *ssa.BinOp:
+							if t.Op == token.ADD || t.Op == token.SUB {
+								if w := walk(t); w != nil {
+									return w
+								}
+							}
+						case *ssa.Return:
+							// a helper returning the narrow product: follow into its callers' uses
+							for _, cs := range libCallSites(p, t.Parent()) {
+								if cv := cs.Value(); cv != nil {
+									if wide(cv.Type()) {
+										return cs
+									}
+									if w := walk(cv); w != nil {
+										return w
+									}
+								}
+							}
+						}
+					}
+					return nil
+				}
+				if w := walk(bo); w != nil {
+					nConv++
+					bad = append(bad, fmt.Sprintf("%s: product with the block size computed in %s at %s and widened at %s: wraps for offsets >= 4 GiB", core.FuncKey(fn), bo.Type().String(), p.InstrPos(bo), p.InstrPos(w)))
+				}
+			}
+		}
+	}
+	if nMul == 0 {
+		rep.Unk("VAC", "WD1", "no product with the block size found in package datafile (Size() has one)", "", "vacuous")
+		return
+	}
+	rep.Check(len(bad) == 0, "WD1", "block-offset-width", fmt.Sprintf("%d products with a factor >= the block size, none computed narrow and widened afterwards", nMul), "", strings.Join(sortedStr(bad), "; "), true)
 }
